@@ -458,30 +458,27 @@ def in_defect_region(op, st, kind, depth):
     if k in ("index", "setitem", "set_at", "setitem_same"):
         descs = op[1]
         mr = max([len(c03.shape_of(d[1])) for d in descs if d[0] in ("mask", "npmask")] + [0])
+        # (reads through a mask of rank >= 2 on a stack were finding C16-c: torch.cat of the members' pieces kept the first
+        #  payload / raised TypeError; repaired, PENDING-C16-c.)  What is left (finding C16-o) RAISES RuntimeError / ValueError in
+        #  the mask branch of the lazy __getitem__ / __setitem__: masks of rank >= 2 on nested stacks, masks together with None
+        #  in a write.  The flag marks the input pattern; only a raise of these classes AT THIS STEP is attributed (signature()).
+        has_none = any(d[0] == "non" for d in descs)
         if k == "index":
-            # reads through 1-d masks are right since the C08 fixes 839008a / b79ab80 / e06487a / 94eb4cb; a mask of rank >= 2
-            # on a stack goes through torch.cat of the members' pieces (finding C16-d inside the lazy mask path)
-            f["mask_on_stack"] = bool(mr >= 2 and kind == "stack")
+            f["mask_branch"] = bool(mr >= 2 and kind == "stack")
         else:
-            # writes through a mask of rank >= 2 (it spans the stack dims of the nested stacks a write promotes to)
-            f["mask_on_stack"] = bool(mr >= 2)
-    if k in ("setitem", "set_at", "setitem_same"):
-        descs = op[1]
-        f["write_index_none"] = any(d[0] == "non" for d in descs)
+            f["mask_branch"] = bool(mr >= 2 or (mr >= 1 and has_none))
+        # (td[idx] = value with None in idx was finding C16-f: repaired, PENDING-C16-f)
         # (td[()] = value was finding C16-g: repaired)
         # (writes through an integer tensor of rank >= 2 were finding C16-h: fixed by e0579fb)
     # (torch.cat of non-tensor entries was finding C16-d, update_ / copy_ C16-e, to_dict D20, memmap after permute C16-m: repaired)
-    whole_update_at = k == "set_at" and op[5] == "update_at_" and len(expand_ellipsis(op[1], st.pos.dim())) == 0 and not op[2]
-    if ((k == "update" and op[1] in ("update-inplace", "update_", "copy_")) or whole_update_at) and kind == "stack":
-        cur = call(lambda: rep(st.td.get("s"), st.pl))
-        f["update_inplace_partly_expanded_stack"] = bool(cur[0] == "ok" and not fully_expanded(cur[1]))
+    # (update(inplace=True) / update_ / copy_ of a NonTensorStack with a batched NonTensorData member was finding C16-k: repaired,
+    #  PENDING-C16-k)
     if k in ("setitem", "set_at", "setitem_same") or (k == "update" and op[1] != "update"):
         e = call(lambda: st.td.get("s"))
         f["write_to_aliased_members"] = bool(e[0] == "ok" and has_alias(e[1]))
     if k in LAZY_UNSUPPORTED and kind == "stack":
         f["shape_op_on_stack"] = True
-    if k == "memmap" and has_seq_payload(st):
-        f["memmap_seq_payload"] = True
+    # (memmap round trips of list / tuple payloads were finding C16-j: repaired by e2949e0)
     return {a: b for a, b in f.items() if b}
 
 
@@ -696,6 +693,7 @@ class State:
         self.want = None
         self.depth_before = 0
         self.region = {}
+        self.region_step = {}
         self.aux = {}
         self.tmp = []
 
@@ -765,6 +763,17 @@ def apply_op(st, op):
             got = call(lambda: f(tds, op[1]))
         if got[0] != "ok":
             return "raise", got[1]
+        if k == "cat" and any(isinstance(t_.get("s"), NonTensorData) for t_ in tds):
+            # torch.cat on the entries themselves, a NonTensorData among them (NonTensorData.__torch_function__: what the lazy
+            # mask path does with the members' pieces).  Operands that are all lazy stacks go to LazyStackedTensorDict's cat,
+            # which refuses different stack dims: C08's subject.
+            ec = call(lambda: torch.cat([t_.get("s") for t_ in tds], op[1]))
+            if ec[0] != "ok":
+                st.aux["entry_cat"] = ["raise", ec[1]]
+            else:
+                tl = call(lambda: flatten_to(ec[1].tolist(), list(want[1].shape)))
+                st.aux["entry_cat"] = ["ok", rep(ec[1], st.pl), [int(v) for v in ec[1].batch_size],
+                                       [json.dumps(canon(o)) for o in tl[1]] if tl[0] == "ok" and tl[1] is not None else None]
         st.td, st.pos = got[1], want[1]
         return "ok", None
     if k == "clone":
@@ -1018,6 +1027,9 @@ def signature(label, op, st_before_kind, container, extra=None, st=None):
         sig["zero_elements"] = bool(ref is not None and ref.numel() == 0) or bool(st.pos is not None and st.pos.numel() == 0)
     if op is not None and st is not None:
         sig.update(st.region)
+        sig["mask_branch"] = bool(st.region_step.get("mask_branch"))      # of this step only
+        sig["mask_branch_raises"] = bool(sig["mask_branch"] and sig["check"] == "raises"
+                                         and (extra or {}).get("exception") in ("RuntimeError", "ValueError"))
     if st is not None and st.td is not None:
         ra = call(lambda: rep(st.td.get("s"), st.pl))
         sig["nested_stack_after"] = bool(ra[0] == "ok" and rep_depth(ra[1]) >= 2)
@@ -1070,7 +1082,8 @@ def run_history(case, rng=None, trace=None, probe=None):
             st.depth_before = rep_depth(rb[1]) if rb[0] == "ok" else 0
             # sticky: once a history went through the input region of a recorded finding, later failures are attributed to it
             region_step = in_defect_region(op, st, kind_before, st.depth_before)
-            st.region = dict(st.region, **region_step)
+            st.region_step = region_step
+            st.region = dict(st.region, **{a: b for a, b in region_step.items() if a != "mask_branch"})
             status, info = apply_op(st, op)
             if trace is not None:
                 ra = call(lambda: rep(st.td.get("s"), st.pl))
@@ -1101,6 +1114,13 @@ def run_history(case, rng=None, trace=None, probe=None):
             bad = check_state(st, prng)
             if op[0] == "to_dict":
                 bad += check_to_dict(st)
+            if op[0] == "cat" and st.aux.get("entry_cat") is not None and st.pos.numel():
+                ec = st.aux["entry_cat"]
+                wantc = [st.pl.canon[c] for c in expected_flat(st)]
+                if ec[0] != "ok":
+                    bad.append(("entry-cat-raises", {"exception": ec[1], "operands": st.aux.get("operands")}))
+                elif ec[2] != list(st.pos.shape) or ec[3] != wantc:
+                    bad.append(("entry-cat-content", {"operands": st.aux.get("operands"), "batch_size": ec[2], "want": wantc[:16], "got": ec[3] and ec[3][:16]}))
             if op[0] == "setitem_same" and cont == "TensorDict" and rb[0] == "ok" and not st.region:
                 ra2 = call(lambda: rep(st.td.get("s"), st.pl))
                 if ra2[0] == "ok" and ra2[1] != rb[1]:
@@ -1458,6 +1478,10 @@ def model_lines_for(t, case):
         out.append((k, sx([Sym("expand"), rep_sx(before), list(op[1])]), after, "rep"))
     elif k == "cat" and aux.get("operands") and all(rep_ok(o) for o in aux["operands"]) and all(c == "TensorDict" for c in aux.get("containers", [])):
         out.append((k, sx([Sym("cat"), [rep_sx(o) for o in aux["operands"]], op[1] % r_before]), after, "rep"))
+        ec = aux.get("entry_cat")
+        if ec is not None and (ec[0] != "ok" or rep_ok(ec[1])):
+            out.append(("entry-cat", sx([Sym("cat-entries"), [rep_sx(o) for o in aux["operands"]], op[1] % r_before]),
+                        ec[1] if ec[0] == "ok" else "raised", "rep"))
     elif k == "to_dict":
         td_obs = t["obs"].get("to_dict")
         if td_obs is not None:
@@ -1535,6 +1559,13 @@ def check_model(R, all_traces):
         if status == "out-of-model":
             R.count("model:out-of-model")
             continue
+        # distribution of the correspondence lines this round added (answered by the model, not out-of-model)
+        if label == "index" and any(d[0] in ("mask", "npmask") for d in t["op"][1]) and t["before"][0] == "K":
+            R.count("model:index-1d-mask-on-stack" + ("-with-other-items" if len(expand_ellipsis(t["op"][1], len(t["bs_before"]))) > 1 else ""))
+        if label == "set_at" and any(d[0] == "non" for d in t["op"][1]):
+            R.count("model:set_at-with-None")
+        if label in ("update-inplace", "update_at_()") and t["before"][0] == "K" and not fully_expanded(t["before"]):
+            R.count("model:update-inplace-partly-expanded-stack")
         if kind == "rep":
             got = unsx_rep(val) if status == "ok" else status
             if got != want:
